@@ -330,7 +330,43 @@ def run_history(ops):
     return None
 
 
+def changed_property_case():
+    """GetManagedObjects reports the readable properties as they are when it is asked: values assigned locally or Set remotely after
+    the export are the ones reported"""
+    from txdbus import message
+    h, conn, (Obj, Derived) = make_handler()
+    h.exportObject(Obj('/a'))
+    child = Derived('/a/b')
+    h.exportObject(child)
+    child.P = 'changed'
+    child.Tags = ['t']
+    child.R = 'derived, later'
+    call = message.MethodCallMessage('/a/b', 'Set', interface='org.freedesktop.DBus.Properties', signature='ssv', body=['org.example.T', 'Count', 5])
+    p = message.parseMessage(call.rawMessage, [])
+    p.sender = ':1.7'
+    conn.sent.clear()
+    h.handleMethodCallMessage(p)
+    replies = [m for m in conn.sent if getattr(m, 'reply_serial', None) == p.serial]          # (a PropertiesChanged signal goes out as well)
+    if len(replies) != 1 or getattr(replies[0], 'error_name', None):
+        return 'remote Set of a writable property failed: %r' % [getattr(m, 'error_name', None) for m in conn.sent]
+    conn.sent.clear()
+    call = message.MethodCallMessage('/a', 'GetManagedObjects', interface='org.freedesktop.DBus.ObjectManager')
+    call.sender = ':1.7'
+    h.handleMethodCallMessage(call)
+    if len(conn.sent) != 1 or getattr(conn.sent[0], 'error_name', None):
+        return 'GetManagedObjects(/a) after property changes: %r' % [getattr(m, 'error_name', None) for m in conn.sent]
+    got = conn.sent[0].body[0].get('/a/b', {})
+    want = {'org.example.T': {'P': 'changed', 'Count': 5, 'Enabled': False, 'Label': '', 'Tags': ['t']}, 'org.example.U': {'Q': -1}, 'org.example.V': {'R': 'derived, later'}}
+    got = {k: v for k, v in got.items() if k.startswith('org.example.')}
+    if got != want:
+        return 'GetManagedObjects(/a) after /a/b had P, Tags, R assigned and Count Set remotely reports %r, the current readable properties are %r' % (got, want)
+    return None
+
+
 def bounded(tier, seed):
+    f = changed_property_case()
+    if f:
+        return 1, [{'function': 'txdbus.objects.DBusObjectHandler', 'clause': 'history', 'input': ['property changes after export'], 'detail': f}]
     rnd = random.Random(seed)
     n, failures = 0, []
     ops = [(o, p) for o in ('export', 'unexport') for p in PATHS]
